@@ -536,9 +536,13 @@ def serde_model(ctx):
     return ctx.mc('serde_terms', 'MC_Serde', {}, {}, ['Dump', 'BuilderCollapses'], spec='SSpec')
 
 
+def de_model(ctx):
+    return ctx.mc('serde_de', 'MC_SerdeDe', {}, {}, ['Dump', 'LengthErrorsOnlyWhenShort'], spec='DSpec')
+
+
 def c16(ctx):
     r = serde_model(ctx)
-    ctx.replay([r['out']], ['C16.'])
+    ctx.replay([r['out'], de_model(ctx)['out']], ['C16.'])
     trace, s = ctx.record('record-serde', 'serde16.ndjson', ['--n', 140 if ctx.quick else 3000, '--events', 'typed'])
     reasons_trace(ctx, 'serde', 'TraceSerde', trace, lambda ev, why: 'C16.' + why,
                   lambda ev, why: f'typed datum ({ev.get("type")}): {why}', rec_summary=s)
@@ -550,7 +554,7 @@ def c16(ctx):
 
 def c17(ctx):
     r = serde_model(ctx)
-    ctx.replay([r['out']], ['C17.'])
+    ctx.replay([r['out'], de_model(ctx)['out']], ['C17.'])
     trace, s = ctx.record('record-serde', 'serde17.ndjson', ['--n', 150 if ctx.quick else 3000, '--events', 'value_ser,value_de,text_de'])
     reasons_trace(ctx, 'serde', 'TraceSerde', trace, lambda ev, why: 'C17.' + why,
                   lambda ev, why: f'Value through its own Serialize/Deserialize ({ev["ev"]}): {why}', rec_summary=s)
